@@ -132,6 +132,50 @@ def capacity_witnesses(res):
     res.need("T11.capacity-witness", 15)
 
 
+def frame_walk_accounts_header(prog, res):
+    """T9 (sibling frame walkers): where a block's size is compared with the bytes that remain, the block header has
+    already been accounted for - either the comparison adds the header size to the block size, or the remaining count was
+    reduced by a constant on every path since the block header was parsed."""
+    R = "T9.frame-walk-accounts-header"
+    n = 0
+    for f in prog.all_functions():
+        if not f.file.startswith(("lib/decompress/", "lib/legacy/")):
+            continue
+        for b, i, c in f.calls(None):
+            cn = c.get("c") or ""
+            if not cn.endswith("getcBlockSize"):
+                continue
+            # the local receiving the block size
+            B = None
+            for nm, ds in f.local_defs().items():
+                if any(d is not None and strip_casts(d) is c for d in ds):
+                    B = nm
+            if B is None:
+                continue
+            for bid, cond, t, fl in f.branches():
+                cc = strip_casts(f.resolve_x(cond))
+                if cc is None or cc.get("k") != "bin" or cc["op"] not in (">", "<", ">=", "<="):
+                    continue
+                sides = [strip_casts(f.resolve_x(cc["lhs"])), strip_casts(f.resolve_x(cc["rhs"]))]
+                bs = [x for x in sides if any(y.get("k") == "ref" and y.get("n") == B for y in walk(x))]
+                rs = [x for x in sides if x.get("k") == "ref" and x.get("rk") in ("l", "sl") and x.get("n") != B]
+                if len(bs) != 1 or len(rs) != 1:
+                    continue
+                Rn = rs[0]["n"]
+                if not any(d is None for d in f.local_defs().get(Rn, [])):     # R must be a running count (compound-assigned)
+                    continue
+                n += 1
+                included = bs[0].get("k") == "bin" and bs[0].get("op") == "+"
+                dec = [(b2, i2) for b2, i2, x in f.events(lambda y: y.get("k") == "asg" and y.get("op") == "-=") if strip_casts(x["lhs"]).get("n") == Rn
+                       and (const_val(x["rhs"]) is not None or strip_casts(x["rhs"]).get("rk") == "g")]
+                tgt = (bid, max(0, len(f.blocks[bid]["el"]) - 1))       # the condition is the last element of its block
+                ok = included or (bool(dec) and f.must_pass(via_roots=dec, starts=[(b, i + 1)], targets=[tgt]))
+                res.check(ok, R, "%s:%s-vs-remaining" % (f.name, cn), "%s:%s" % (f.file, cc.get("l")),
+                          "block size compared with the remaining bytes after the block header was deducted" if not included else "comparison includes the block header size",
+                          "%s compares the block size with a remaining-byte count that still contains the block header: a block 1..3 bytes longer than the input is accepted and the walk continues past the end of the input" % f.name)
+    res.need(R, 6)
+
+
 def run(tier):
     res = Result("C03", tier)
     tus, info = extract(["decompress", "common", "legacy", "compress"])
@@ -145,6 +189,7 @@ def run(tier):
     ddict_probe(prog, res)
     legacy_dispatch(prog, res)
     watchdog(prog, res)
+    frame_walk_accounts_header(prog, res)
     capacity_witnesses(res)
     return res.finish(
         explanation="Frozen inventory of every check-before-use guard of the decoder, entropy-header readers and "
